@@ -555,10 +555,21 @@ fn op_tok(ctx: &mut Ctx, op: &Value, ev: &mut Map<String, Value>) {
     }
 }
 
+/// Store ids are `usize`; the traces keep them small (TLC's integers are 32 bit). Logged ids 100..199 stand for the real
+/// ids (logged - 100) + 2^32, i.e. ids that differ from 0..99 only above bit 31 (on a 64-bit host).
+fn real_id(logged: usize) -> usize {
+    if (100..200).contains(&logged) && std::mem::size_of::<usize>() >= 8 {
+        (logged - 100) + (1usize << 32)
+    } else {
+        logged
+    }
+}
+
 // registry (top-level API, thread-local maps)
 fn op_registry(ctx: &mut Ctx, op: &Value, ev: &mut Map<String, Value>) {
     let name = get_s(op, "op").to_string();
-    let id = get_u(op, "id") as usize;
+    let logged = get_u(op, "id") as usize;
+    let id = real_id(logged);
     let res = guarded(|| match name.as_str() {
         "r_create" => core::create_store(id, make_lang(get_s(op, "lang"))),
         "r_destroy" => core::destroy_store(id),
@@ -572,12 +583,12 @@ fn op_registry(ctx: &mut Ctx, op: &Value, ev: &mut Map<String, Value>) {
     match res {
         Ok(()) => {
             if name == "r_create" {
-                ctx.reg_live.insert(id as u64);
-                ctx.reg_lang.insert(id as u64, get_s(op, "lang").to_string());
+                ctx.reg_live.insert(logged as u64);
+                ctx.reg_lang.insert(logged as u64, get_s(op, "lang").to_string());
                 ctx.langs_seen.insert(get_s(op, "lang").to_string());
             }
             if name == "r_destroy" {
-                ctx.reg_live.remove(&(id as u64));
+                ctx.reg_live.remove(&(logged as u64));
             }
         }
         Err(msg) => {
@@ -587,7 +598,7 @@ fn op_registry(ctx: &mut Ctx, op: &Value, ev: &mut Map<String, Value>) {
     // read every live buffer after every call
     let mut bufs = Vec::new();
     for &live in ctx.reg_live.iter() {
-        let r = guarded(|| core::using_results(live as usize, |buf| hits_json(buf)));
+        let r = guarded(|| core::using_results(real_id(live as usize), |buf| hits_json(buf)));
         match r {
             Ok(h) => bufs.push(json!({"id": live, "hits": h})),
             Err(msg) => bufs.push(json!({"id": live, "hits": [], "panic": msg})),
@@ -595,7 +606,7 @@ fn op_registry(ctx: &mut Ctx, op: &Value, ev: &mut Map<String, Value>) {
     }
     ev.insert("bufs".into(), Value::Array(bufs));
     if name == "r_search" {
-        if let Some(lang) = ctx.reg_lang.get(&(id as u64)) {
+        if let Some(lang) = ctx.reg_lang.get(&(logged as u64)) {
             let l = ctx.comp.lang(lang);
             if let Ok(t) = guarded(|| tokenize_query(&string_of(&get_cps(op, "q")), l)) {
                 ev.insert("qtok".into(), tok_json(&t));
@@ -607,7 +618,7 @@ fn op_registry(ctx: &mut Ctx, op: &Value, ev: &mut Map<String, Value>) {
 fn registry_reset(ctx: &mut Ctx) {
     let live: Vec<u64> = ctx.reg_live.iter().cloned().collect();
     for id in live {
-        let _ = guarded(|| core::destroy_store(id as usize));
+        let _ = guarded(|| core::destroy_store(real_id(id as usize)));
     }
     ctx.reg_live.clear();
     ctx.reg_lang.clear();
